@@ -21,7 +21,8 @@ RULE = ("Part A. kind 0: real threads driven by a controller that releases one t
         "window check per record, phase 2 stores racing each other. Part B. kind 3: every history over the 8 "
         "actions {valid change, no change, touch only, syntax/schema error, deletion, rate change, rate removal, "
         "revert} of length 4 (quick) / 6 (thorough) in YAML, plus random histories up to length 8 that add "
-        "{unreadable (invalid UTF-8), same-mtime edit} in YAML/JSON/TOML; mtimes set with utimensat. kind 4: the "
+        "{unreadable (invalid UTF-8), same-mtime edit, valid change carrying an undeserialisable extra appender} "
+        "in YAML/JSON/TOML; mtimes set with utimensat. kind 4: the "
         "real init_file reloader thread over hand-picked and random histories. "
         "non-trivial = a scenario with a swap (kind 0/1/2) or a history with a change of the file (kind 3/4); "
         "distinct = distinct case line")
@@ -153,6 +154,19 @@ RATES = [20, 35, 50]
 
 
 def text_of(fmt, tag, rate, variant=0):
+    if variant == 1:
+        # a second appender of an unknown kind: reported and dropped (lossy), the rest is installed
+        if fmt == 0:
+            s = "refresh_rate: %dms\n" % rate if rate is not None else ""
+            return s + ("appenders:\n  a:\n    kind: tag\n    tag: %d\n  b:\n    kind: nosuchkind\n"
+                        "root:\n  level: trace\n  appenders:\n    - a\n    - b\n" % tag)
+        if fmt == 1:
+            r = '"refresh_rate":"%dms",' % rate if rate is not None else ""
+            return ('{%s"appenders":{"a":{"kind":"tag","tag":%d},"b":{"kind":"nosuchkind"}},'
+                    '"root":{"level":"trace","appenders":["a","b"]}}' % (r, tag))
+        r = 'refresh_rate = "%dms"\n' % rate if rate is not None else ""
+        return ('%s[appenders.a]\nkind = "tag"\ntag = %d\n[appenders.b]\nkind = "nosuchkind"\n'
+                '[root]\nlevel = "trace"\nappenders = ["a", "b"]\n' % (r, tag))
     if fmt == 0:
         s = ""
         if rate is not None:
@@ -174,7 +188,7 @@ BROKEN = {
 }
 
 ACTIONS = ["valid-change", "no-change", "touch-only", "syntax-error", "deletion", "rate-change", "rate-removal",
-           "revert", "unreadable", "same-mtime-edit"]
+           "revert", "unreadable", "same-mtime-edit", "valid-change-with-undeserialisable-extra-appender"]
 
 
 def build_history(fmt, actions, kind=3):
@@ -235,6 +249,11 @@ def build_history(fmt, actions, kind=3):
             tag = next_tag
             next_tag += 1
             cur = [2, cur[1], tid_of(text_of(fmt, tag, rate), True, tag, rate)]
+        elif a == 10:
+            tag = next_tag
+            next_tag += 1
+            m += 1
+            cur = [2, m, tid_of(text_of(fmt, tag, rate, 1), True, tag, rate)]
         steps.append(list(cur))
     return [kind, fmt, texts, [1, t0], steps, list(actions)]
 
@@ -256,7 +275,7 @@ def cases(rng, tier):
     for acts in itertools.product(range(8), repeat=depth):
         out.append(build_history(0, acts))
     for _ in range(600 if tier == "quick" else 20000):
-        acts = [rng.choice([0, 0, 1, 2, 3, 4, 5, 6, 7, 8, 8, 9, 9]) for _ in range(rng.range(1, 8))]
+        acts = [rng.choice([0, 0, 1, 2, 3, 4, 5, 6, 7, 8, 8, 9, 9, 10]) for _ in range(rng.range(1, 8))]
         out.append(build_history(rng.below(3), acts))
     for acts in LIVE:
         out.append(build_history(0, acts, kind=4))
